@@ -341,7 +341,9 @@ def summarize(tier: str, seed: int, merged: dict) -> dict:
         "rule": (
             f"term groups {GROUPS} x aggregation in {{none}} U 9 S-norms x all activation sequences of length 0..L "
             f"(L={{g: lengths(tier, g) for g in GROUPS}}) over group x degrees {DEGREES} x 2 defuzzifiers x 3 types; batch "
-            "degrees for all term pairs; non-trivial = at least two positive activations and a defined result"
+            "degrees for all term pairs; total weights 2^-12 / 2^-13; for all sequences of length <= 2 the kind given as enum member / through "
+            "configure(), the activations as an iterator / as a caller-owned list edited afterwards; one long-lived Automatic instance per class; "
+            "non-trivial = at least two positive activations and a defined result"
         ).replace("{g: lengths(tier, g) for g in GROUPS}", str({g: lengths(tier, g) for g in GROUPS})),
         "exhaustive": True,
         "vacuity_errors": vac,
